@@ -301,6 +301,8 @@ def gen_specs(ctx, n_random, n_scen):
     if n_scen >= len(G.SCENARIOS):
         specs.append(G.scenario_network(rng, "tank_limit", variant=0))   # piecewise
         specs.append(G.scenario_network(rng, "tank_limit", variant=1))   # default
+        specs.append(G.scenario_network(rng, "head_pattern", variant=0))
+        specs.append(G.scenario_network(rng, "head_pattern", variant=1))
     for v in range(6):  # every cut-set variant on every run (DD: 0, 2, 4, 5; PDD: 1, 3)
         if n_scen >= len(G.SCENARIOS):
             specs.append(G.scenario_network(rng, "cutset", variant=v))
